@@ -191,6 +191,44 @@ def round_trip(typ, axis_kinds, dtype, lazy, zipped, metadata, rng, scratch):
     return ev
 
 
+def list_round_trip(typs, axis_kinds, dtype, lazy, zipped, metadata, rng, scratch):
+    """Several results written together (ComputableList.to_zarr, what a multi-detector simulation saves) and read back: every item
+    must come back as itself.  One event per item."""
+    import abtem
+    from abtem.array import ComputableList
+    it = Intern()
+    path = os.path.join(scratch, f"l{rng.randrange(10**9)}" + (".zip" if zipped else ".zarr"))
+    evs = [{"typ": t, "axis_kinds": list(axis_kinds), "dtype_in": str(np.dtype(dtype)), "lazy": lazy, "zip": zipped, "raised": False, "array_equal": False,
+            "list_index": i, "before": {"type": "", "dtype": "", "shape": [], "axes": [], "metadata": ["none"]},
+            "after": {"type": "", "dtype": "", "shape": [], "axes": [], "metadata": ["none"]}} for i, t in enumerate(typs)]
+    try:
+        objs = [make_object(t, axis_kinds, dtype, lazy, dict(metadata, item=i), rng) for i, t in enumerate(typs)]
+        for ev, o in zip(evs, objs):
+            ev["before"] = project(o, it)
+        ComputableList(objs).to_zarr(path, overwrite=True)
+        back = abtem.from_zarr(path)
+        back = back if isinstance(back, list) else [back]
+        for i, ev in enumerate(evs):
+            if i >= len(back):
+                ev["raised"] = True
+                ev["exc"] = f"{len(back)} of {len(objs)} items came back"
+                continue
+            ev["after"] = project(back[i], it)
+            a0 = np.asarray(objs[i].compute().array) if lazy else np.asarray(objs[i].array)
+            a1 = np.asarray(back[i].compute().array)
+            ev["array_equal"] = bool(a0.shape == a1.shape and np.array_equal(a0, a1))
+    except Exception as ex:
+        for ev in evs:
+            ev["raised"] = True
+            ev["exc"] = f"{type(ex).__name__}: {ex}"[:300]
+    finally:
+        if os.path.isdir(path):
+            shutil.rmtree(path, ignore_errors=True)
+        elif os.path.exists(path):
+            os.remove(path)
+    return evs
+
+
 def tags_for(ev, clauses):
     return {"clauses": sorted(clauses), "typ": ev["typ"], "zip": ev["zip"], "lazy": ev["lazy"], "dtype": ev["dtype_in"]}
 
@@ -225,7 +263,7 @@ def self_test(ctx: Ctx):
 def run(ctx: Ctx):
     quick = ctx.tier == "quick"
     ctx.rule = ("round trips of (object type x 0-2 ensemble axes from 9 axis kinds x dtype x lazy/eager x directory/zip x "
-                "metadata tree); metadata trees are all value trees of depth <= 1 (TLC, exhaustive) plus depth-2 trees; "
+                "metadata tree), single objects and lists of 2-3 measurements saved together; metadata trees are all value trees of depth <= 1 (TLC, exhaustive) plus depth-2 trees; "
                 "distinct = distinct configuration; non-trivial = metadata tree with a container or >= 1 ensemble axis")
     ctx.design_check("StoreModel", cfg_text=CFG.format(d=2, w=1 if quick else 2, emit="FALSE", extra=""), label="codec depth 2",
                      timeout=3000)
@@ -256,6 +294,14 @@ def run(ctx: Ctx):
             ev["metadata_repr"] = repr(md["vf"])[:300]
             evs.append(ev)
             ctx.case((typ, kinds, str(np.dtype(dtype)), j % 2, j % 3 == 0, json.dumps(t)), nontrivial=naxes > 0 or t[0] in ("tuple", "list", "dict"))
+            if j % 8 == 1:
+                # the same configuration as a list of two or three measurements saved together
+                ms = [x for x in OBJ_TYPES if x not in ("Waves", "PotentialArray")]
+                typs = [ms[(j + i) % len(ms)] for i in range(2 + (j // 8) % 2)]
+                for e2 in list_round_trip(typs, kinds, np.float32, lazy=(j % 16 == 1), zipped=(j % 3 == 0), metadata=md, rng=rng, scratch=scratch):
+                    e2["metadata_repr"] = repr(md["vf"])[:300]
+                    evs.append(e2)
+                ctx.case(("list", tuple(typs), kinds, j % 16 == 1, j % 3 == 0))
     finally:
         shutil.rmtree(scratch, ignore_errors=True)
     for e in evs[:2]:
